@@ -15,7 +15,7 @@ structure Tok where
   pad : Nat
   size : Nat
   la : Nat
-  deriving DecidableEq, Repr
+  deriving DecidableEq, Repr, Inhabited
 
 def Tok.window (k : Tok) : Nat := k.pad + k.size + k.la
 
